@@ -12,6 +12,17 @@ FileSet.find_closest / fileset[t] / fileset[t, filters] is run; the implementati
 the certified checker on the harness's own list of created files (never by a re-implementation in Python).  By
 accepted_iff_spec a rejected answer on a case whose hypotheses hold (evaluated in Coq: coverages well formed, a file
 named by get_filename(t) covers t) is a counter-example to the property: a failing input.
+
+Extension (Model/C16_tree.v): every tree is also handed to the COMPOSED model -- the window computed from the directory
+layout, the algorithmic model of FileSet.find of property C01 (directory walk with look-back and pruning) in walk
+order, first covering / first nearest file.  Per tree Coq checks that layout_of(template) is the harness's own layout
+and that C01's hypotheses hold; per query that the window stays inside datetime and that the flat listing describes
+the tree; then composed_is_flat_model says the two models agree -- evaluated on every query (a difference is a `proof`
+failure).  The implementation's choice among several allowed files is compared with the model's (first in find
+order: search_first_in_order) and counted, not judged: the property allows any of them.  Directed trees
+(edge_trees) put t on directory boundaries, on first / last instants, next to files of the neighbouring directory and
+two directories away, and exactly on both edges of the window; fileset[...] is indexed with datetime,
+pandas.Timestamp, str, (t, filters) tuples and [t, filters] lists, filters None or a dict (Model/C16_tree.getitem).
 """
 import datetime as dt
 import shutil
@@ -27,8 +38,11 @@ PREAMBLE = ("From Typhon Require Import Base.Calendar Model.C02_template Model.C
 TRUSTED = [
     "correspondence harness tools/props/c16.py (template grammar, own file-name renderer, population and query "
     "generators, mapping of returned paths to indices, error enum)",
-    "FileSet.find returns exactly the overlapping, filter-passing, non-excluded files on well-placed populations with "
-    "durations <= one directory period (property C01; the populations are built inside its hypotheses)",
+    "FileSet.find behaves as its model Model/C01_find.v (tied to the source by the check of property C01); that this "
+    "model yields exactly the overlapping, filter-passing, non-excluded files of the window, in walk order, is no longer "
+    "trusted: closest_end_to_end / composed_is_flat_model, hypotheses evaluated in Coq per tree and query",
+    "pandas.to_datetime on the strings the harness writes (%Y-%m-%d %H:%M:%S) = the timestamp (the `parse` of the "
+    "dispatch theorems)",
     "FileSet.get_info parses the coverage the harness wrote into the name (property C02; compared per file on every run)",
     "IntervalTree membership of exclude periods = closed-interval overlap (property C03)",
     "Python re / glob / str.format / datetime, numpy argmin on timedelta objects: exercised, not modelled",
